@@ -37,7 +37,7 @@ func (sbpt SliceByPlaneTransformer) Transform(m modeling.Mesh) (results modeling
 }
 
 func SliceByPlaneWithAttribute(m modeling.Mesh, plane geometry.Plane, attribute string) (modeling.Mesh, modeling.Mesh) {
-	RequireTopology(m, modeling.TriangleTopology)
+	check(RequireTopology(m, modeling.TriangleTopology))
 
 	originalIndices := m.Indices()
 	numFaces := originalIndices.Len() / 3
